@@ -213,7 +213,7 @@ def main(tier):
     chk.extra.update(cases=n_cases, prefix_length=n, status_counts=status_count, specs_bounded_class=n_bounded, specs_rejection_class=n_reject,
                      max_line_events_per_next_by_bound_magnitude=work, events_budget=G.EVENTS, fuel=G.FUEL, seeds_per_spec=len(seeds))
     chk.rule = (
-        "the kinds C11 lists x generate_true / generate_false: comparisons with int bounds 0, ±1, ±99, ±100, ±101, ±1000, ±sys.maxsize, ±(sys.maxsize+1), ±2^70 and float bounds 0 … ±1e16, 3.5e300; "
+        "the kinds C11 lists x generate_true / generate_false: comparisons with int bounds 0, ±1, ±99, ±100, ±101, ±1000, ±sys.maxsize, ±(sys.maxsize+1), ±2^70 and float bounds 0 … ±1e16, 3.5e300, ±8.99e307, ±1e308, ±1.7e308, ±sys.float_info.max; "
         "eq / ne; membership sets (int, str, mixed, range(-100,101), range(-100,100), ∅, float members); none / truthy / falsy / empty; the nine type tests; all_p / any_p / set-of over those; "
         "the unsatisfiable requests.  Tapes: all-low, all-high, alternating, all-zero (adversarial), %d seeded mixed; first %d next() calls under a line-event budget; statuses and values compared with "
         "driver_gen; bounded-class requests must never starve or raise; rejection samplers must yield on some tape or real seed.  non-trivial = distinct (mode, predicate, tape style) with a yield."
